@@ -823,6 +823,19 @@ pub fn c09_instances(tier: Tier) -> Vec<Instance> {
                     }
                 }
             }
+            // an accepted VER (whatever request id it answers, whatever handshake went before) does not switch the gate off
+            for hr in [0u8, 1, 7] {
+                for r1 in [0u8, 1, 7] {
+                    for (v2, r2) in [(8u8, 0u8), (8, r1), (0, 7), (255, 1)] {
+                        let mut i = Instance::new(&format!("ver-after-accepted#{cname}#isi-reqi-{hr}-ver9-reqi-{r1}-then-v{v2}-reqi-{r2}#{}", imp_name(imp)), imp, c, vec![f_ver_r(c, 9, r1), f_keepalive(c), f_ver_r(c, v2, r2), f_ver_r(c, 7, r1), f_small(c)]);
+                        i.verify_version = true;
+                        i.handshake = Some(insim::insim::Isi { reqi: RequestId(hr), iname: "verif".into(), ..Default::default() });
+                        i.chunks = Chunks::Boundary;
+                        i.allow_eof = false;
+                        out.push(i);
+                    }
+                }
+            }
             // nor on the request id the VER carries (0 = unsolicited, the handshake's own, somebody else's), whatever the
             // request id of the ISI this side sent, if any
             {
